@@ -1,3 +1,317 @@
-"""Algebraic identities of C03 (filled in below)."""
+"""Algebraic identities of C03 (rules A1..A5, W1) on the formulas extracted by C03.run."""
+import sympy as sp
+from .. import sym, esign
+from ..tree import sx, walk, pp
+from .C20 import deep_unwrap
+
+Q = 'romea::core::LambertConverter::'
+
+
+def S(name):
+    return sp.Symbol(name, real=True)
+
+
+def zero(e):
+    try:
+        r = sp.simplify(e)
+        if r == 0:
+            return True, r
+        r2 = sp.simplify(sp.powsimp(sp.expand_log(sp.powdenest(r, force=True), force=True), force=True))
+        return (r2 == 0), r2
+    except Exception as ex:      # pragma: no cover
+        return None, str(ex)
+
+
 def run(fx, R, d):
-    pass
+    R.floor('A2', 3)
+    R.floor('A1', 2)
+    rsec, ssec, rtan, stan, rfor, sfor, rinv, sinv = (d[k] for k in ('rsec', 'ssec', 'rtan', 'stan', 'rfor', 'sfor', 'rinv', 'sinv'))
+    fsec, ftan, ffor, finv = (d[k] for k in ('fsec', 'ftan', 'ffor', 'finv'))
+    loc_s, loc_t, loc_f, loc_i = (fx.rel(f['loc']) for f in (fsec, ftan, ffor, finv))
+    n_, c_, xs_, ys_, lon0_, e_ = S('this.n_'), S('this.c_'), S('this.xs_'), S('this.ys_'), S('this.longitude0_'), S('this.e_')
+    lat, lon = S('wgs84Coordinates.latitude'), S('wgs84Coordinates.longitude')
+    # ---- forward map ---------------------------------------------------------------------
+    if len(sfor) != 1 or not isinstance(sfor[0].ret, sp.Basic) or len(sfor[0].ret.args) != 2 or 'isolat' not in rfor.atom_defs:
+        R.undecided('A1', 'LambertConverter::toLambert', 'forward map not readable as (x, y) with an isometric-latitude atom')
+        return
+    X, Y = sfor[0].ret.args
+    L = S('isolat')
+    Ldef = rfor.atom_defs['isolat']
+    D = n_ * (lon - lon0_)
+    rad, _ = zero((X - xs_) ** 2 + (ys_ - Y) ** 2 - c_ ** 2 * sp.exp(-2 * n_ * L))
+    ang, r2 = zero((X - xs_) * sp.cos(D) - (ys_ - Y) * sp.sin(D))
+    R.check(bool(rad), 'A1', 'LambertConverter::toLambert:radius', '(x-xs)^2 + (ys-y)^2 differs from (c exp(-n L))^2', 'polar radius |c| exp(-n L(lat))', loc_f, 'E-ALG')
+    R.check(bool(ang), 'A1', 'LambertConverter::toLambert:angle', '(x-xs) cos(n dlon) - (ys-y) sin(n dlon) = %s (should vanish)' % (r2,), 'polar angle n (lon - lon0) measured from the -y axis', loc_f, 'E-ALG')
+    # ---- A4 conformality ------------------------------------------------------------------------
+    e = e_
+    dL = sp.diff(Ldef, lat)
+    target = (1 - e ** 2) / ((1 - e ** 2 * sp.sin(lat) ** 2) * sp.cos(lat))
+    ok, res = conformal_identity(Ldef, lat, e)
+    R.check(bool(ok), 'A4', 'LambertConverter::computeIsometricLatitude:derivative', 'dL/dlat - (1-e^2)/((1-e^2 sin^2 lat) cos lat) = %s (should vanish): meridian and parallel scales differ' % (res,),
+            'dL/dlat = (1-e^2)/((1-e^2 sin^2) cos): conformal', fx.rel(d['fiso']['loc']), 'E-ALG')
+    # ---- secant parameters ------------------------------------------------------------------------
+    defs = rsec.atom_defs
+    need = ('N1', 'N2', 'isolat0', 'isolat1', 'isolat2', 'coslat1', 'coslat2', 'n', 'c')
+    if any(k not in defs for k in need):
+        R.undecided('A2', 'LambertConverter::computeProjectionParameters/secant', 'atoms missing: %s' % [k for k in need if k not in defs])
+    else:
+        a, ee = S('ellipsoid.a'), S('ellipsoid.e')
+        # atoms mean what their names say
+        for k, phi in (('1', S('parameters.latitude1')), ('2', S('parameters.latitude2'))):
+            okN, rN = zero(defs['N' + k] - a / sp.sqrt(1 - ee ** 2 * sp.sin(phi) ** 2))
+            R.check(bool(okN), 'A2', 'secant:N%s' % k, 'N%s is %s, not a/sqrt(1-e^2 sin^2 lat%s)' % (k, defs['N' + k], k), 'N%s = prime-vertical radius at parallel %s' % (k, k), loc_s, 'E-ALG')
+            okC, _ = zero(defs['coslat' + k] - sp.cos(phi))
+            R.check(bool(okC), 'A2', 'secant:coslat%s' % k, 'coslat%s is %s' % (k, defs['coslat' + k]), 'coslat%s = cos(lat%s)' % (k, k), loc_s, 'E-ALG')
+        for k in ('0', '1', '2'):
+            want = Ldef.subs({lat: S('parameters.latitude' + k), e_: ee})
+            okL, _ = zero(defs['isolat' + k] - want)
+            R.check(bool(okL), 'A2', 'secant:isolat%s' % k, 'isolat%s is not the isometric latitude (as used by toLambert) of latitude%s' % (k, k), 'isolat%s = L(lat%s)' % (k, k), loc_s, 'E-ALG')
+        N1, N2, c1, c2 = (sp.Symbol(x, positive=True) for x in ('N1', 'N2', 'coslat1', 'coslat2'))
+        L0, L1, L2 = S('isolat0'), S('isolat1'), S('isolat2')
+        n, c = S('n'), S('c')
+        pos = {S('N1'): N1, S('N2'): N2, S('coslat1'): c1, S('coslat2'): c2}
+        ndef = defs['n'].subs(pos)
+        cdef = defs['c'].subs(pos)
+        k1 = (n * c * sp.exp(-n * L1) / (N1 * c1)).subs(c, cdef)
+        ok1, r1 = zero(k1 - 1)
+        R.check(bool(ok1), 'A2', 'secant:scale-on-parallel-1', 'scale on the first standard parallel is %s, not 1' % sp.simplify(k1), 'k(lat1) = 1', loc_s, 'E-ALG')
+        k2 = (n * c * sp.exp(-n * L2) / (N2 * c2)).subs(c, cdef).subs(n, ndef)
+        ok2, r2_ = zero(k2 - 1)
+        R.check(bool(ok2), 'A2', 'secant:scale-on-parallel-2', 'scale on the second standard parallel is %s, not 1' % sp.simplify(k2), 'k(lat2) = 1', loc_s, 'E-ALG')
+        # A3 origin / W1 aggregate order
+        for st in ssec:
+            if not isinstance(st.ret, tuple) or len(st.ret) != 5:
+                R.undecided('A3', 'secant:origin', 'returned parameters not readable')
+                continue
+            rl, rn, rc, rx, ry = st.ret
+            cond_true = all(cc[2] for cc in st.cond)
+            R.check(rl == S('parameters.longitude0') and rn == n and rc == c and rx == S('parameters.x0'), 'W1', 'secant:aggregate-order/%s' % ('generic' if cond_true else 'polar'),
+                    'returned aggregate is (%s, %s, %s, %s, ..), expected (longitude0, n, c, x0, ys)' % (rl, rn, rc, rx), 'aggregate = (longitude0, n, c, xs=x0, ys)', loc_s, 'E-SIB')
+            if cond_true:
+                Y0 = ry - c * sp.exp(-n * L0)
+                ok0, r0 = zero(Y0 - S('parameters.y0'))
+                R.check(bool(ok0), 'A3', 'secant:origin-y', 'the origin maps to y = y0 + (%s)' % r0, 'origin -> y0', loc_s, 'E-ALG')
+    # ---- tangent parameters -----------------------------------------------------------------------------
+    tdefs = rtan.atom_defs
+    need = ('N', 'cotlat', 'isolat', 'n', 'C', 'YS')
+    if any(k not in tdefs for k in need):
+        R.undecided('A2', 'LambertConverter::computeProjectionParameters/tangent', 'atoms missing: %s' % [k for k in need if k not in tdefs])
+    else:
+        phi0 = S('parameters.latitude0')
+        a, ee, k0 = S('ellipsoid.a'), S('ellipsoid.e'), S('parameters.k0')
+        okN, _ = zero(tdefs['N'] - a / sp.sqrt(1 - ee ** 2 * sp.sin(phi0) ** 2))
+        okL, _ = zero(tdefs['isolat'] - Ldef.subs({lat: phi0, e_: ee}))
+        okn, _ = zero(tdefs['n'] - sp.sin(phi0))
+        okc, _ = zero(tdefs['cotlat'] - sp.cos(phi0) / sp.sin(phi0))
+        R.check(bool(okN and okL and okn and okc), 'A2', 'tangent:atoms', 'N / isolat / n / cotlat are not N(lat0), L(lat0), sin(lat0), cot(lat0): %s' % {k: str(v) for k, v in tdefs.items() if k in need[:4]},
+                'N(lat0), L(lat0), n = sin(lat0), cot(lat0)', loc_t, 'E-ALG')
+        N, cot, Lt, n, C, YS = S('N'), S('cotlat'), S('isolat'), S('n'), S('C'), S('YS')
+        kt = (n * C * sp.exp(-n * Lt) / (N * sp.cos(phi0))).subs(C, tdefs['C']).subs({n: tdefs['n'], cot: tdefs['cotlat']})
+        okk, rk = zero(kt - k0)
+        R.check(bool(okk), 'A2', 'tangent:scale-on-parallel', 'scale on the tangent parallel is %s, not k0' % sp.simplify(kt), 'k(lat0) = k0', loc_t, 'E-ALG')
+        for st in stan:
+            if isinstance(st.ret, tuple) and len(st.ret) == 5:
+                rl, rn, rc, rx, ry = st.ret
+                R.check(rl == S('parameters.longitude0') and rn == n and rc == C and rx == S('parameters.x0') and ry == YS, 'W1', 'tangent:aggregate-order',
+                        'returned aggregate is (%s, %s, %s, %s, %s)' % st.ret, 'aggregate = (longitude0, n, C, x0, YS)', loc_t, 'E-SIB')
+                Y0 = (YS - C * sp.exp(-n * Lt)).subs({YS: tdefs['YS'], C: tdefs['C']})
+                ok0, r0 = zero(Y0 - S('parameters.y0'))
+                R.check(bool(ok0), 'A3', 'tangent:origin-y', 'the origin maps to y = y0 + (%s)' % r0, 'origin -> y0', loc_t, 'E-ALG')
+    # ---- A3 on the maps themselves: origin x and central meridian ---------------------------------------
+    Xm = X.subs(lon, lon0_)
+    okx, rx_ = zero(Xm - xs_)
+    R.check(bool(okx), 'A3', 'toLambert:central-meridian', 'on the central meridian x - xs = %s' % rx_, 'central meridian -> x = xs (= x0)', loc_f, 'E-ALG')
+    Ym = sp.simplify(Y.subs(lon, lon0_))
+    oky, ry_ = zero(Ym - (ys_ - c_ * sp.exp(-n_ * L)))
+    R.check(bool(oky), 'A3', 'toLambert:origin-ordinate', 'on the central meridian y = %s; with ys = y0 + c exp(-n L0) the origin then maps to y0 + (%s), non-zero when c < 0 (southern cones)' % (Ym, ry_),
+            'y(lat, lon0) = ys - c exp(-n L(lat))', loc_f, 'E-ALG')
+    check_wiring(fx, R)
+    check_inverse(fx, R, d, X, Y, L, Ldef, D)
+
+
+def conformal_identity(Ldef, lat, e):
+    """dL/dlat == (1-e^2)/((1-e^2 sin^2) cos)  via the substitution t = tan(lat/2) (rational identity)."""
+    t = sp.Symbol('t', positive=True)
+    s_, c_ = 2 * t / (1 + t ** 2), (1 - t ** 2) / (1 + t ** 2)
+    dL = sp.diff(Ldef, lat)
+    target = (1 - e ** 2) / ((1 - e ** 2 * sp.sin(lat) ** 2) * sp.cos(lat))
+    diff_ = (dL - target)
+    diff_ = diff_.rewrite(sp.tan) if False else diff_
+    # express tan(lat/2 + pi/4) = (1+t)/(1-t)
+    diff_ = diff_.subs(sp.tan(lat / 2 + sp.pi / 4), (1 + t) / (1 - t))
+    diff_ = diff_.subs({sp.sin(lat): s_, sp.cos(lat): c_})
+    try:
+        r = sp.simplify(sp.powsimp(sp.powdenest(sp.together(diff_), force=True), force=True))
+        if r == 0:
+            return True, r
+        r = sp.simplify(sp.expand_power_base(r, force=True))
+        return r == 0, r
+    except Exception as ex:      # pragma: no cover
+        return None, str(ex)
+
+
+def check_wiring(fx, R):
+    ctors = [f for f in fx.functions.values() if f.get('ctor') and f.get('cls') == 'romea::core::LambertConverter' and not f.get('copyctor')]
+    by = {len(f['params']): [] for f in ctors}
+    for f in ctors:
+        by[len(f['params'])].append(f)
+    six = by.get(6, [])
+    if len(six) == 1:
+        R.used(six[0])
+        inits = [(i.get('field'), deep_unwrap(sx(i['e']))) for i in six[0]['inits'] if i.get('field')]
+        want = [('longitude0_', 'longitude0'), ('n_', 'n'), ('c_', 'c'), ('xs_', 'xs'), ('ys_', 'ys'), ('e_', 'e')]
+        R.check(sorted(inits) == sorted(want), 'W1', 'LambertConverter(6 args)', 'field initialisation is %s' % inits, 'each field from its like-named argument', fx.rel(six[0]['loc']), 'E-SIB')
+    else:
+        R.undecided('W1', 'LambertConverter(6 args)', 'constructor not found')
+    for f in by.get(2, []):
+        R.used(f)
+        dl = [deep_unwrap(sx(i['e'])) for i in f['inits'] if i.get('delegating')]
+        if 'ProjectionParameters &, const double &' in f['sig'] and 'Secant' not in f['sig'] and 'Tangent' not in f['sig']:
+            ok = len(dl) == 1 and dl[0][1:] == ('parameters.longitude0', 'parameters.n', 'parameters.c', 'parameters.xs', 'parameters.ys', 'e')
+            R.check(ok, 'W1', 'LambertConverter(ProjectionParameters,e)', 'delegation passes %s' % (dl,), 'passes (longitude0, n, c, xs, ys, e) in order', fx.rel(f['loc']), 'E-SIB')
+        else:
+            ok = len(dl) == 1 and len(dl[0]) == 3 and dl[0][1][0].endswith('computeProjectionParameters') and dl[0][1][1:] == ('parameters', 'ellipsoid') and dl[0][2] == 'ellipsoid.e'
+            R.check(ok, 'W1', 'LambertConverter(%s)' % ('Secant' if 'Secant' in f['sig'] else 'Tangent'), 'delegation is %s' % (dl,), 'computeProjectionParameters(parameters, ellipsoid), ellipsoid.e',
+                    fx.rel(f['loc']), 'E-SIB')
+    rec = fx.records.get('romea::core::LambertConverter::ProjectionParameters')
+    if rec:
+        order = [f['name'] for f in rec['fields']]
+        R.check(order == ['longitude0', 'n', 'c', 'xs', 'ys'], 'W1', 'ProjectionParameters:field-order', 'aggregate field order is %s' % order, 'fields (longitude0, n, c, xs, ys)', None, 'E-SIB')
+
+
+def check_inverse(fx, R, d, X, Y, L, Ldef, D):
+    rinv, sinv, finv = d['rinv'], d['sinv'], d['finv']
+    loc = fx.rel(finv['loc'])
+    n_, c_, xs_, ys_, lon0_, e_ = S('this.n_'), S('this.c_'), S('this.xs_'), S('this.ys_'), S('this.longitude0_'), S('this.e_')
+    if len(sinv) != 1 or not isinstance(sinv[0].ret, tuple) or len(sinv[0].ret) != 2:
+        R.undecided('A5', 'LambertConverter::toWGS84', 'inverse not readable as {latitude, longitude}')
+        return
+    latr, lonr = sinv[0].ret
+    defs = rinv.atom_defs
+    px, py = None, None
+    for sy in set().union(*[v.free_symbols for v in defs.values()]) if defs else []:
+        pass
+    # substitute the forward map for position.x(), position.y()
+    def subst(expr):
+        m_ = {}
+        for a in expr.atoms(sp.core.function.AppliedUndef):
+            if str(a.func) == 'x':
+                m_[a] = X
+            elif str(a.func) == 'y':
+                m_[a] = Y
+        return expr.subs(m_)
+    full = {S(k): subst(v) for k, v in defs.items()}
+    # latitude argument
+    if not (isinstance(latr, sp.Basic) and str(latr.func) == 'computeLatitude' and len(latr.args) == 2):
+        R.undecided('A5', 'toWGS84:latitude', 'latitude is not computeLatitude(isometric latitude, e): %s' % latr)
+    else:
+        arg = latr.args[0]
+        for _ in range(3):
+            arg = arg.subs(full)
+        arg = subst(arg)
+        cpos = sp.Symbol('cabs', positive=True)
+        arg2 = sp.simplify(arg)
+        # rho = |c| exp(-nL): decide under both signs of c
+        for sign, name in ((1, 'north'), (-1, 'south')):
+            a2 = arg2.subs(c_, sign * cpos)
+            a2 = sp.simplify(sp.expand_log(sp.simplify(a2), force=True))
+            ok, res = zero(a2 - L)
+            if ok:
+                R.holds('A5', 'toWGS84:isometric-latitude/%s' % name, 'recovers L for c %s 0' % ('>' if sign > 0 else '<'), loc, 'E-ALG')
+            else:
+                R.violated('A5', 'toWGS84:isometric-latitude', 'substituting the forward map, the isometric latitude handed to computeLatitude is %s instead of L for cones with c %s 0 (%s hemisphere)' % (
+                    res if res is not None else a2, '>' if sign > 0 else '<', name), loc, 'E-ALG')
+        R.check(latr.args[1] == e_, 'A5', 'toWGS84:eccentricity', 'computeLatitude receives %s as eccentricity' % latr.args[1], 'uses the converter eccentricity', loc, 'E-ALG')
+    # longitude
+    th = defs.get('theta')
+    lonx = lonr.subs(S('theta'), sp.Symbol('TH', real=True)) if isinstance(lonr, sp.Basic) else None
+    okform, _ = zero(lonx - (lon0_ + sp.Symbol('TH', real=True) / n_)) if lonx is not None else (False, None)
+    R.check(bool(okform), 'A5', 'toWGS84:longitude-form', 'longitude is %s, expected longitude0 + theta/n' % lonr, 'lon = lon0 + theta/n', loc, 'E-ALG')
+    if th is None:
+        R.undecided('A5', 'toWGS84:theta', 'theta atom not found')
+    else:
+        ths = subst(th)
+        if ths.func == sp.atan:
+            q = sp.simplify(ths.args[0])
+            ok, res = zero(q - sp.tan(D))
+            R.check(bool(ok), 'A5', 'toWGS84:theta', 'tan(theta) - tan(n dlon) = %s after substituting the forward map' % res, 'theta = n (lon - lon0)', loc, 'E-ALG')
+        elif ths.func == sp.atan2:
+            yy, xx = ths.args
+            ok, res = zero(yy * sp.cos(D) - xx * sp.sin(D))
+            radial = sp.simplify(xx / sp.cos(D))
+            # atan2 returns n*dlon only if the common factor is positive; it is c exp(-nL): sign of c
+            cpos = sp.Symbol('cabs', positive=True)
+            neg = sp.simplify(radial.subs(c_, -cpos))
+            bad = neg.is_negative or (sp.simplify(neg / cpos)).is_negative
+            if ok and bad:
+                R.violated('A5', 'toWGS84:theta', 'theta = atan2(%s, %s): both arguments carry the factor c exp(-n L), which is negative for southern cones, so atan2 returns n dlon +- pi and the '
+                           'longitude is off by pi/|n| there (atan of the quotient cancels the sign)' % (th.args[0], th.args[1]), loc, 'E-ALG')
+            elif ok:
+                R.holds('A5', 'toWGS84:theta', 'atan2 arguments have a positive common factor', loc, 'E-ALG')
+            else:
+                R.violated('A5', 'toWGS84:theta', 'atan2 arguments are not (R sin(n dlon), R cos(n dlon)): residual %s' % res, loc, 'E-ALG')
+        else:
+            R.undecided('A5', 'toWGS84:theta', 'theta form not recognised: %s' % th)
+    # latitude iteration fixed point
+    check_latitude_iteration(fx, R, d, Ldef)
+
+
+def check_latitude_iteration(fx, R, d, Ldef):
+    f = d['flat']
+    loc = fx.rel(f['loc'])
+    loops = [x for x in walk(f['body']) if x.get('k') in ('For', 'While', 'Do')]
+    if len(loops) != 1:
+        R.undecided('A5', 'computeLatitude', '%d loops' % len(loops))
+        return
+    L_ = loops[0]
+    rd = sym.Reader(fx)
+    rd.atoms = {'alpha'}
+    ctx = {'this': ('this',), 'fn': f, 'depth': 0}
+    st = sym.State()
+    ids = {}
+    for s in walk(f['body']):
+        if s.get('k') == 'Decl':
+            for v in s['vars']:
+                ids.setdefault(v['name'], v['id'])
+    for p in f['params']:
+        st.locals[p['id']] = S('arg:' + p['name'])
+    phi = sp.Symbol('phi', real=True)
+    st.locals[ids['latitude']] = phi
+    body = [s for s in (L_['b']['s'] if L_['b']['k'] == 'Compound' else [L_['b']]) if s['k'] in ('Decl', 'Expr')]
+    try:
+        states = [st]
+        for s in body:
+            nxt = []
+            for x in states:
+                nxt += rd.ex(s, x, ctx)
+            states = nxt
+    except sym.Unsupported as u:
+        R.undecided('A5', 'computeLatitude', 'symbolic reader: %s' % u)
+        return
+    if len(states) != 1:
+        R.undecided('A5', 'computeLatitude', 'loop body forks')
+        return
+    new = states[0].locals.get(ids['latitude'])
+    alpha = rd.atom_defs.get('alpha')
+    if not isinstance(new, sp.Basic) or alpha is None:
+        R.undecided('A5', 'computeLatitude', 'update not interpretable')
+        return
+    Lsym, e = S('arg:isometricLatitude'), S('arg:e')
+    # with L = L(phi):  exp(L) = tan(pi/4+phi/2) * q^(e/2),  alpha = q^(-e/2)   (q = (1-e s)/(1+e s) > 0)
+    q = sp.Symbol('q', positive=True)
+    T = sp.Symbol('T', positive=True)     # tan(pi/4 + phi/2) > 0
+    lat = S('wgs84Coordinates.latitude')
+    Lphi = Ldef.subs({lat: phi, S('this.e_'): e})
+    expL = sp.exp(Lphi)
+    ratio = (1 - e * sp.sin(phi)) / (1 + e * sp.sin(phi))
+    expL_q = sp.simplify(expL).subs(sp.tan(phi / 2 + sp.pi / 4), T)
+    expL_q = expL_q.subs(ratio, q)
+    alpha_q = alpha.subs((1 + e * sp.sin(phi)) / (1 - e * sp.sin(phi)), 1 / q).subs(ratio, q)
+    upd = new.subs(S('alpha'), alpha_q).subs(sp.exp(Lsym), expL_q)
+    target = 2 * sp.atan(T) - sp.pi / 2
+    res = sp.simplify(sp.powsimp(sp.powdenest(upd - target, force=True), force=True))
+    if res != 0:
+        # try recognising 2*atan(X) - pi/2 with X -> T
+        res = sp.simplify(sp.expand_power_base(res, force=True))
+    R.check(res == 0, 'A5', 'computeLatitude:fixed-point', 'with L = L(phi) the update gives lat\' - phi = %s (should vanish: 2 atan(tan(pi/4+phi/2)) - pi/2 = phi)' % res,
+            'true latitude is a fixed point of the update', loc, 'E-ALG')
